@@ -26,7 +26,7 @@ structure Env where
                               -- min(share of the yearly amount per block, APR cap · TVL / blocks per year / Eden price) — ANY value
 deriving Repr, DecidableEq, Inhabited
 
-inductive Halt | noUsdc | conversion | revenueAddr | bankSend | blocksPerYear | edenPrice | mint | stake
+inductive Halt | noUsdc | conversion | revenueAddr | bankSend | blocksPerYear | edenPrice | mint | stake | negativeCoin
 deriving Repr, DecidableEq, Inhabited
 
 /-- commitment MintCoins → bank MintCoins: `Coins.Validate` rejects a coin whose amount is not positive -/
@@ -105,5 +105,28 @@ deriving Repr, DecidableEq, Inhabited
 def edenBStep (saveFirst : Bool) (s : EdenB) : EdenBOp → EdenB
   | .burn x => burnEdenB saveFirst s x
   | .commit x => commitEdenB s x
+
+/-! ### fee allocation to the fee-sharing validators in begin-block
+(x/estaking/modules/distribution/module.go `AllocateEdenUsdcTokens` / `AllocateEdenBTokens`; amounts are raw 18-decimal DecCoins;
+`remaining.Sub(reward)` panics on a negative result, in BeginBlock, with no recover) -/
+
+/-- `NewDecFromInt(tokens).QuoTruncate(NewDecFromInt(sum))` -/
+def fracTrunc (t T : Int) : Int := (t * P).tdiv T
+/-- the same quotient rounded to nearest (what `Quo` does; ties aside) -/
+def fracNearest (t T : Int) : Int := (2 * t * P + T).tdiv (2 * T)
+
+/-- `feesCollected.MulDecTruncate(representativesFraction).MulDecTruncate(powerFraction)` for one coin -/
+def valReward (fees rep frac : Int) : Int := ((fees * rep).tdiv P * frac).tdiv P
+
+/-- the loop over the validators: `remaining = remaining.Sub(reward)` -/
+def allocate (frac : Int → Int → Int) (fees rep T : Int) : List Int → Int → Except Halt Int
+  | [], remaining => .ok remaining
+  | t :: ts, remaining =>
+    let r := remaining - valReward fees rep (frac t T)
+    if r < 0 then .error .negativeCoin else allocate frac fees rep T ts r
+
+def sumL : List Int → Int
+  | [] => 0
+  | x :: xs => x + sumL xs
 
 end Elys.Blocks
